@@ -937,9 +937,8 @@ func TestC11LocaBoundary(t *testing.T) {
 				if target <= 0x1FFFE {
 					recs := make([][]byte, len(s.glyphs))
 					for i, m := range s.glyphs {
-						recs[i] = m.g.Bytes()
-						if m == nil {
-							recs[i] = nil
+						if m != nil {
+							recs[i] = m.g.Bytes()
 						}
 					}
 					for format := 0; format <= 1; format++ {
